@@ -95,6 +95,8 @@ def cases(tier, seed):
     q = tier == "quick"
     plan = [
         # spec, alphabet, depth bound (None = closure)
+        ("H22", "core8", None),  # small alphabet explored to closure of the reachable state set
+        ("N22", "core8", None),
         ("H22", "core12", 4 if q else None),
         ("H22", "full", 2 if q else 3),
         ("H22", "mixed", 3 if q else 4),
